@@ -576,7 +576,7 @@ def queryRetrieval (env : Env) (fuel : Nat) (qi : Nat) (query : List QueryPart) 
       if qi == 0 then throwPanic .filterFirst else
       match query[qi - 1]? with
       | some (.allIndices _) => do
-        let status ← withValueScope current (evalCnf env fuel cnf)
+        let status ← withRec RecKind.filter (withValueScope current (evalCnf env fuel cnf))
         match status with
         | .pass => queryRetrieval env fuel (qi + 1) query current conv
         | _ => pure []
